@@ -2,7 +2,7 @@
    IRCP.InvStep / IRCP.Reach.  `Panic p` is the model's rendering of every abort site of the
    implementation (unwrap / expect / index / checked arithmetic; inventory/panic_sites.json). *)
 From IRC Require Import Str Wild Glob Parse Reply State Handlers Step.
-From IRCP Require Import InvDefs InvStep Reach.
+From IRCP Require Import InvDefs InvStep Reach QuitP CloseP.
 From stdpp Require Import gmap.
 
 Section C05.
@@ -31,9 +31,30 @@ Theorem C05_others_untouched : forall w i e w' o cl, Inv w -> step cfg verify w 
   (forall j, j ∈ cl -> conns w' !! j = None).
 Proof. intros w i e w' o cl I H. destruct (step_frame cfg verify w i e w' o cl I H) as [_ [_ [_ [A [B _]]]]]. auto. Qed.
 
+(* the sending connection stays open unless the protocol itself ends it, and nobody else is
+   closed except by an operator: a connection j closed by a step of connection i is either i itself -
+   closed by an over-long line, invalid text, its own close, the pong timeout, the connection limit,
+   or a line whose handler asked for it - or the line was KILL / DIE / SQUIT sent by an operator *)
+Theorem C05_closed_only_by_protocol : forall w i e w' o cl j, Inv w -> step cfg verify w i e = Ok (w', o, cl) -> j ∈ cl ->
+  (j = i /\ (closing_event e = true
+             \/ (exists secure, e = EvOpen secure /\ conns w !! i = None)
+             \/ (exists l c r, e = EvLine l /\ conns w !! i = Some c /\ process_line cfg verify i (sh w) c l = Ok r /\ h_quit r = true)))
+  \/
+  (exists l c, e = EvLine l /\ conns w !! i = Some c /\ operator_kill_line (sh w) c l).
+Proof. exact (closed_only_by_protocol cfg verify). Qed.
+
+(* ... and a handler asks for it only for QUIT, or for a failed password at the end of a
+   registration (464, nothing else changes) - for all 41 commands, any parameters, any state *)
+Theorem C05_quit_causes : forall i s c l r, process_line cfg verify i s c l = Ok r -> h_quit r = true ->
+  exists msg cmd, tokenize l = inl msg /\ command_of_message msg = inl cmd /\
+    (cmd = QUIT \/ (c_auth c = false /\ h_sh r = s /\ exists c', h_out r = [(i, srv cfg (err_passwdmismatch (client_name c')))])).
+Proof. exact (line_quit cfg verify). Qed.
+
 End C05.
 
 Print Assumptions C05_no_abort.
 Print Assumptions C05_keeps_serving.
 Print Assumptions C05_invariant.
 Print Assumptions C05_others_untouched.
+Print Assumptions C05_closed_only_by_protocol.
+Print Assumptions C05_quit_causes.
